@@ -95,6 +95,20 @@ pub fn c07(cfg: &Cfg, idx: u64, st: &mut Stats) {
                     return;
                 }
             }
+            // "any number of times": a long run of Interrupted before one
+            // call, and a short acceptance followed by Interrupted
+            {
+                let mut c = base.clone();
+                c.plan.writes = vec![WStep::Full; wi];
+                let burst = [9usize, 17, 33][wi % 3];
+                if len > 1 && wi % 2 == 0 {
+                    c.plan.writes.push(WStep::Accept(1));
+                }
+                c.plan.writes.extend(std::iter::repeat(WStep::Intr).take(burst));
+                if st.report("C07", &Case::Build(c)) {
+                    return;
+                }
+            }
         }
         *st
             .exhaustive_scopes
@@ -170,7 +184,7 @@ pub fn c01(cfg: &Cfg, idx: u64, st: &mut Stats) {
             Tier::Thorough => 3_000_000,
         };
         let fanout = *rng.pick(&[2u32, 26, 256]);
-        let fam = KeyFamily { n, fanout, keylen: 14, seed: rng.next_u64(), pairs: idx % 2 == 1 };
+        let fam = KeyFamily { n, fanout, keylen: 14, seed: rng.next_u64(), pairs: idx % 2 == 1, leaf_fan: 0, decreasing: false };
         let case = MemBuildCase {
             fam,
             map: idx % 2 == 0,
@@ -376,7 +390,7 @@ pub fn c06(cfg: &Cfg, idx: u64, st: &mut Stats) {
     // the generator tracks what the contract model will accept so that it
     // can aim keys at each rejection class
     let mut model = crate::model::Contract::new();
-    let mut ops = Vec::new();
+    let mut ops: Vec<Op> = Vec::new();
     let mut val = 0u64;
     let mut next_item = |rng: &mut Rng, model: &mut crate::model::Contract, add: bool| -> Item {
         let k = history_key(rng, &model.last, err_pct, &alphabet);
@@ -430,6 +444,27 @@ pub fn c06(cfg: &Cfg, idx: u64, st: &mut Stats) {
             _ => {
                 let (k, v) = next_item(&mut rng, &mut model, false);
                 ops.push(Op::Ins(k, v));
+            }
+        }
+    }
+    if rng.chance(1, 16) {
+        // long keys: a common prefix of more than 1 KiB in front of every key
+        // (error payloads must carry the offending keys in full)
+        let plen = *rng.pick(&[1000usize, 1023, 1024, 1025, 1500, 2040]);
+        let prefix: Vec<u8> = (0..plen).map(|i| b'a' + (i % 7) as u8).collect();
+        let lengthen = |k: &Vec<u8>| -> Vec<u8> {
+            let mut x = prefix.clone();
+            x.extend_from_slice(k);
+            x
+        };
+        for o in ops.iter_mut() {
+            match o {
+                Op::Ins(k, _) | Op::Add(k) => *k = lengthen(k),
+                Op::ExtIter(it) | Op::ExtStream(it, _) => {
+                    for (k, _) in it.iter_mut() {
+                        *k = lengthen(k);
+                    }
+                }
             }
         }
     }
@@ -696,6 +731,11 @@ pub fn c20(cfg: &Cfg, idx: u64, st: &mut Stats) {
             CorruptCase { base: Base::Raw(b), muts: vec![] }
         }
     };
+    let mut cc = cc;
+    if rng.chance(1, 3) {
+        // untrusted bytes may well carry a matching checksum
+        cc.muts.push(Mutation::FixChecksum);
+    }
     st.report("C20", &Case::Corrupt(cc));
 }
 
@@ -710,6 +750,25 @@ pub fn c08_sizes(cfg: &Cfg) -> (u64, u64, u64) {
 pub fn c08(cfg: &Cfg, idx: u64, st: &mut Stats) {
     let (files, payloads, _) = c08_sizes(cfg);
     let mut rng = rng_for(cfg, idx);
+    if idx == files {
+        // one artifact of several MiB: build path (byte-at-a-time sums) vs
+        // verify path (16 bytes at a time over the whole file) at a scale
+        // where windowed or chunked verification would show
+        let n = match cfg.tier {
+            Tier::Quick => 400_000,
+            Tier::Thorough => 4_000_000,
+        };
+        let case = MemBuildCase {
+            fam: KeyFamily { n, fanout: 26, keylen: 12, seed: rng.next_u64(), pairs: false, leaf_fan: 0, decreasing: false },
+            map: true,
+            registry: None,
+            bufcap: None,
+            every: 1000,
+            shape: Shape::Random { short_16: 3, intr_16: 1 },
+        };
+        st.report("C08", &Case::MemBuild(case));
+        return;
+    }
     if idx < files {
         // B, exhaustive: every position x every other value on a small file
         let mut task;
@@ -974,7 +1033,7 @@ pub fn c13_cases(cfg: &Cfg) -> Vec<MemBuildCase> {
                 si += 1;
                 out.push(MemBuildCase {
                     shape: shapes[si % shapes.len()],
-                    fam: KeyFamily { n, fanout: 26, keylen: 12, seed: seed ^ n, pairs: g.map_or(false, |g| g.0 == 5) || (map && g.is_none()) },
+                    fam: KeyFamily { n, fanout: 26, keylen: 12, seed: seed ^ n, pairs: g.map_or(false, |g| g.0 == 5) || (map && g.is_none()), leaf_fan: 0, decreasing: false },
                     map,
                     registry: g,
                     bufcap: if map { None } else { Some(4096) },
@@ -986,7 +1045,7 @@ pub fn c13_cases(cfg: &Cfg) -> Vec<MemBuildCase> {
     // other fan-outs and key lengths at one scale (incl. the 256-way node)
     for (i, (f, l)) in [(2u32, 40u32), (256, 8), (64, 24), (256, 64), (10, 16), (33, 12)].iter().enumerate() {
         out.push(MemBuildCase {
-            fam: KeyFamily { n: 200_000, fanout: *f, keylen: *l, seed: seed ^ (*f as u64) << 8, pairs: i % 2 == 1 },
+            fam: KeyFamily { n: 200_000, fanout: *f, keylen: *l, seed: seed ^ (*f as u64) << 8, pairs: i % 2 == 1, leaf_fan: 0, decreasing: false },
             map: i % 2 == 0,
             registry: [None, Some((128, 2)), Some((3, 3))][i % 3],
             bufcap: None,
@@ -994,10 +1053,33 @@ pub fn c13_cases(cfg: &Cfg) -> Vec<MemBuildCase> {
             shape: shapes[i % shapes.len()],
         });
     }
+    // an unbounded number of DISTINCT wide nodes (leaf fans of 33..64 last
+    // bytes), and maps whose values strictly decrease (outputs are pushed
+    // down on every insert)
+    for (i, (fan, g)) in [(40u32, Some((3usize, 3usize))), (33, Some((64, 2))), (64, None), (48, Some((128, 2)))].iter().enumerate() {
+        out.push(MemBuildCase {
+            fam: KeyFamily { n: if g.is_none() { 3_000_000 } else { 300_000 }, fanout: 26, keylen: 6, seed: seed ^ 0xfa4 ^ i as u64, pairs: false, leaf_fan: *fan, decreasing: i % 2 == 1 },
+            map: i % 2 == 1,
+            registry: *g,
+            bufcap: None,
+            every: 1000,
+            shape: shapes[i % shapes.len()],
+        });
+    }
+    for (i, g) in [Some((64usize, 2usize)), None, Some((1, 1))].iter().enumerate() {
+        out.push(MemBuildCase {
+            fam: KeyFamily { n: if g.is_none() { 2_000_000 } else { 300_000 }, fanout: 10, keylen: 10, seed: seed ^ 0xdec ^ i as u64, pairs: i == 2, leaf_fan: 0, decreasing: true },
+            map: true,
+            registry: *g,
+            bufcap: None,
+            every: 1000,
+            shape: shapes[(i + 2) % shapes.len()],
+        });
+    }
     if cfg.tier == Tier::Thorough {
         for map in [false, true] {
             out.push(MemBuildCase {
-                fam: KeyFamily { n: 30_000_000, fanout: 26, keylen: 13, seed: seed ^ 99, pairs: !map },
+                fam: KeyFamily { n: 30_000_000, fanout: 26, keylen: 13, seed: seed ^ 99, pairs: !map, leaf_fan: 0, decreasing: false },
                 map,
                 registry: None,
                 bufcap: None,
@@ -1008,7 +1090,7 @@ pub fn c13_cases(cfg: &Cfg) -> Vec<MemBuildCase> {
         for (f, l) in [(2u32, 40u32), (10, 16), (64, 24), (256, 64), (256, 8)] {
             for g in [None, Some((128, 2)), Some((0, 0))] {
                 out.push(MemBuildCase {
-                    fam: KeyFamily { n: 2_000_000, fanout: f, keylen: l, seed: seed ^ f as u64, pairs: l % 16 == 0 },
+                    fam: KeyFamily { n: 2_000_000, fanout: f, keylen: l, seed: seed ^ f as u64, pairs: l % 16 == 0, leaf_fan: 0, decreasing: false },
                     map: f % 4 == 0,
                     registry: g,
                     bufcap: None,
@@ -1019,7 +1101,7 @@ pub fn c13_cases(cfg: &Cfg) -> Vec<MemBuildCase> {
         }
         for map in [false, true] {
             out.push(MemBuildCase {
-                fam: KeyFamily { n: 10_000_000, fanout: 26, keylen: 12, seed: seed ^ 77, pairs: map },
+                fam: KeyFamily { n: 10_000_000, fanout: 26, keylen: 12, seed: seed ^ 77, pairs: map, leaf_fan: 0, decreasing: false },
                 map,
                 registry: None,
                 bufcap: None,
